@@ -165,6 +165,16 @@ def classify(stack, upstream, http2, offers, bad, pin=None):
     return None
 
 
+def _scratch_dir(prefix: str) -> str:
+    """Temporary directory that is removed when the worker process exits (nothing is left under /tmp)."""
+    import atexit
+    import shutil
+
+    d = tempfile.mkdtemp(prefix=prefix)
+    atexit.register(shutil.rmtree, d, ignore_errors=True)
+    return d
+
+
 class World:
     def __init__(self):
         self.ta = tlsconfig.TlsConfig()
@@ -172,7 +182,7 @@ class World:
         # Proxyserver only contributes its options (connection_strategy, validate_inbound_headers, ...)
         self.tctx_cm = taddons.context(self.ta, self.nl, Proxyserver())
         self.tctx = self.tctx_cm.__enter__()
-        self.tctx.configure(self.ta, confdir=tempfile.mkdtemp(prefix="vf-c18-"))
+        self.tctx.configure(self.ta, confdir=_scratch_dir("vf-c18-"))
         self.http2 = None
 
     def close(self):
@@ -472,7 +482,7 @@ def upstream_pem(w) -> str:
     if getattr(w, "_upstream_pem", None) is None:
         from cryptography.hazmat.primitives import serialization
         from mitmproxy import certs
-        d = tempfile.mkdtemp(prefix="vf-c18-up-")
+        d = _scratch_dir("vf-c18-up-")
         store = certs.CertStore.from_store(d, "upstream", 2048)
         entry = store.get_cert("example.com", [])
         path = d + "/upstream.pem"
